@@ -296,7 +296,13 @@ func init() {
 		atomicNote(e)
 		fp, ft := atomicField(e, st, args[0], pos)
 		if e.isVolatile(fp) {
-			return e.freshSV(resT, "vol", st.pc, st)
+			// another goroutine may have published a new value: arbitrary result.
+			// Ghost: lastload is the value read, recheck records that a read
+			// happened since the last event that cleared it.
+			r := e.freshSV(resT, "vol", st.pc, st)
+			st.ghost["lastload"] = e.flatten(resT, r)[0]
+			st.ghost["recheck"] = "1"
+			return r
 		}
 		v := e.load(fr, st, fp, ft, "atomic pointer load") // unsafe.Pointer ref
 		return e.unflat(resT, e.flatten(ft, v))
